@@ -292,11 +292,22 @@ def main(tier, replay):
     # heart-beat scenarios: pessimistic transaction kept open, small managed ttl
     hb = []
     for i in range(6 if tier == "quick" else 30):
+        if i % 3 == 2:
+            # the first lock call is a single-key lock-only-if-exists on an absent key: its tentative primary is dropped
+            # again; the keep-alive must follow the real primary chosen by the next lock call
+            hb.append({"id": f"hb{i}", "backend": "unistore", "splits": rng.sample(["k2", "k3"], rng.randrange(0, 3)), "preload": [{"k": "k1", "v": "o"}], "managed_ttl": 200 + 50 * (i % 2),
+                       "txn": {"mode": "2pc", "ops": []}, "txns": {"t1": {"mode": rng.choice(["2pc", "async"]), "pessimistic": True, "ops": []}},
+                       "program": [{"t": "t1", "op": "begin"}, {"t": "t1", "op": "lock", "ks": ["k2"], "wait": -1, "loie": True, "rv": True},
+                                   {"t": "t1", "op": "lock", "ks": ["k1"], "wait": -1}, {"t": "t1", "op": "sleep", "wait": 650},
+                                   {"t": "t1", "op": "set", "k": "k1", "v": "x"}, {"t": "t1", "op": rng.choice(["commit", "rollback"])}, {"t": "t1", "op": "sleep", "wait": 350}],
+                       "keys": ["k1", "k2", "k3"], "black_from": -1, "hb_primary": "k1",
+                       "no_acceptor": True})   # the acceptor's vocabulary has one primary per transaction; a dropped tentative primary is judged by the python monitor
+            continue
         hb.append({"id": f"hb{i}", "backend": "unistore", "splits": rng.sample(["k2", "k3"], rng.randrange(0, 3)), "preload": [{"k": "k1", "v": "o"}], "managed_ttl": 200 + 50 * (i % 3),
                    "txn": {"mode": "2pc", "ops": []}, "txns": {"t1": {"mode": rng.choice(["2pc", "async"]), "pessimistic": True, "ops": []}},
                    "program": [{"t": "t1", "op": "begin"}, {"t": "t1", "op": "lock", "ks": ["k1", "k3"][: 1 + i % 2], "wait": -1}, {"t": "t1", "op": "sleep", "wait": 450 + 100 * (i % 3)},
                                {"t": "t1", "op": "set", "k": "k1", "v": "x"}, {"t": "t1", "op": rng.choice(["commit", "rollback"])}, {"t": "t1", "op": "sleep", "wait": 350}],
-                   "keys": ["k1", "k2", "k3"], "black_from": -1})
+                   "keys": ["k1", "k2", "k3"], "black_from": -1, "hb_primary": "k1"})
     # the same monitor on concurrent multi-transaction programs (the generator of C01: optimistic and pessimistic transactions in
     # every commit mode contending for a few keys, failed lock calls, splits, concurrent-reader hooks); python predicates only —
     # the extracted acceptor's vocabulary describes one committing transaction and its resolvers
@@ -329,6 +340,11 @@ def main(tier, replay):
         dist[dk] = dist.get(dk, 0) + 1
         if nreq >= 3 or hbn:
             distinct.add(sc["id"])
+        if sc.get("hb_primary") and not r.get("fatal"):
+            pk = sc["hb_primary"].encode().hex()
+            hbs = [e["f"].get("primary") for e in r.get("trace", []) if e["kind"] == "send" and e.get("cmd") == "TxnHeartBeat"]
+            if pk not in hbs:
+                bad.append(f"the transaction held its primary {sc['hb_primary']} for more than two managed ttls but no heart-beat named it (heart-beats named: {sorted(set(bytes.fromhex(h).decode(errors='replace') for h in hbs if h))})")
         if bad:
             nviol += 1
             if nviol <= 5:
